@@ -42,9 +42,22 @@ Fixpoint last_slash_prefix (s : bytes) (acc cur : bytes) : bytes :=
   end.
 
 Definition plain_path_char (c : N) : bool :=
-  is_alpha_u c || is_digit_u c || existsb (N.eqb c) [45; 95; 126; 47].
+  is_alpha_u c || is_digit_u c || existsb (N.eqb c) [45; 95; 126; 47; 46].
 
-Definition base_dir (base : bytes) : option bytes :=
+(* does a path have a segment that is exactly "." or ".." (ResolveReference removes those) *)
+Fixpoint has_dot_segment (p : bytes) (cur : bytes) : bool :=
+  let is_dots (seg : bytes) := bytes_eqb seg [46] || bytes_eqb seg [46; 46] in
+  match p with
+  | [] => is_dots (rev_append cur [])
+  | c :: r => if c =? 47 then is_dots (rev_append cur []) || has_dot_segment r [] else has_dot_segment r (c :: cur)
+  end.
+
+(* ResolveReference keeps neither the query nor the fragment of the base *)
+Definition strip_query_fragment (base : bytes) : bytes :=
+  fst (split_at (N.eqb 63) (fst (split_at (N.eqb 35) base [])) []).
+
+Definition base_dir (base0 : bytes) : option bytes :=
+  let base := strip_query_fragment base0 in
   match get_scheme base O [] base with
   | Some (sch, 47 :: 47 :: r) =>
       match sch with
@@ -56,7 +69,7 @@ Definition base_dir (base : bytes) : option bytes :=
                | [] => None
                | _ =>
                    let p := match path with Some p => 47 :: p | None => [47] end in
-                   if negb (forallb plain_path_char p) then None
+                   if negb (forallb plain_path_char p) || has_dot_segment p [] then None
                    else Some (lower sch ++ [58; 47; 47] ++ auth ++ last_slash_prefix p [] [])
                end
       end
